@@ -194,6 +194,9 @@ func runFree(sc *Scenario, r *hx.Rand) *Outcome {
 	res := append([]string(nil), o.Res...)
 	mu.Unlock()
 	o.Wire, o.Residual = rg.finish()
+	if rg.lockLeft {
+		o.Problems = append(o.Problems, Problem{"C10/lock/output-lock-not-released", "every call had returned, but the output lock was still held 10 s later: a call returned without releasing it (later transmit and Close calls would block for ever)"})
+	}
 	if serve >= 0 && !served {
 		<-serveDone
 	}
@@ -239,7 +242,6 @@ func (x *runner) deadlineRaces(n int) {
 }
 
 // ---- WebSocket subprotocol sessions (oracle only; not modelled) ----
-
 
 func (x *runner) wsProbes() {
 	sc := &Scenario{Mode: "ws", Note: "websocket.NewSession over a pipe with a scripted server"}
